@@ -298,6 +298,35 @@ where
     if show_mpoly(&a) != show_mpoly(&a0) || show_mpoly(&b) != show_mpoly(&b0) {
         return Ok("OPERANDS-MODIFIED".into());
     }
+    // the four named methods of the trait are the API most callers use: each must give what `boolean` gives
+    if let Ok(m) = &r {
+        use geo_booleanop::boolean::Operation;
+        verif::reset(budget);
+        let named = guarded(|| match (pairing.as_str(), op) {
+            ("MM", Operation::Intersection) => a.intersection(&b),
+            ("MM", Operation::Union) => a.union(&b),
+            ("MM", Operation::Difference) => a.difference(&b),
+            ("MM", Operation::Xor) => a.xor(&b),
+            ("PM", Operation::Intersection) => a.0[0].intersection(&b),
+            ("PM", Operation::Union) => a.0[0].union(&b),
+            ("PM", Operation::Difference) => a.0[0].difference(&b),
+            ("PM", Operation::Xor) => a.0[0].xor(&b),
+            ("MP", Operation::Intersection) => a.intersection(&b.0[0]),
+            ("MP", Operation::Union) => a.union(&b.0[0]),
+            ("MP", Operation::Difference) => a.difference(&b.0[0]),
+            ("MP", Operation::Xor) => a.xor(&b.0[0]),
+            ("PP", Operation::Intersection) => a.0[0].intersection(&b.0[0]),
+            ("PP", Operation::Union) => a.0[0].union(&b.0[0]),
+            ("PP", Operation::Difference) => a.0[0].difference(&b.0[0]),
+            ("PP", Operation::Xor) => a.0[0].xor(&b.0[0]),
+            _ => panic!("bad pairing"),
+        });
+        verif::reset(u64::MAX);
+        match named {
+            Ok(n) if show_mpoly(&n) == show_mpoly(m) => {}
+            _ => return Ok("API-MISMATCH the_named_method_and_boolean(op)_give_different_results".into()),
+        }
+    }
     Ok(match r {
         Ok(m) => format!("OK ev={} bumps={} MP {}", ev, bumps, show_mpoly(&m)),
         Err(e) => e,
